@@ -710,6 +710,7 @@ func (d *Document) Save(filename string) error {
 	// 序列化文档关系
 	d.serializeDocumentRelationships()
 
+	verifPoint("serialized")
 	// 写入所有部件
 	for name, data := range d.parts {
 		writer, err := zipWriter.Create(name)
@@ -724,6 +725,7 @@ func (d *Document) Save(filename string) error {
 		}
 
 		Debugf("已写入ZIP条目: %s (%d 字节)", name, len(data))
+		verifPoint("save.part")
 	}
 
 	Infof("成功保存文档: %s", filename)
@@ -3161,6 +3163,7 @@ func (d *Document) ToBytes() ([]byte, error) {
 	// 序列化文档关系
 	d.serializeDocumentRelationships()
 
+	verifPoint("serialized")
 	// 写入所有部件
 	for name, data := range d.parts {
 		writer, err := zipWriter.Create(name)
